@@ -138,6 +138,7 @@ def check_unary(params):
     cls = params["cls"]
     d = make(params["r"])
     out = []
+    snaps = [ref.snapshot(v) for v in (d,)]
 
     def bad(kind, msg):
         out.append((_sig(kind, params), "[%s] %s: %s" % (cls, d, msg)))
@@ -175,6 +176,8 @@ def check_unary(params):
             if not same(d[:i] >> d[i:j] >> d[j:], d):
                 bad("slice3", "d[:%d] >> d[%d:%d] >> d[%d:] != d" % (i, i, j, j))
                 return out
+    if [ref.snapshot(v) for v in (d,)] != snaps:
+        out.append((_sig("operand-mutated", params), "[%s] an operand (d) is no longer the value it was before the operations" % (cls,)))
     return out
 
 
@@ -182,6 +185,7 @@ def check_binary(params):
     cls = params["cls"]
     f, g = make(params["r1"]), make(params["r2"])
     out = []
+    snaps = [ref.snapshot(v) for v in (f, g,)]
 
     def bad(kind, msg):
         out.append((_sig(kind, params), "[%s] f=%s, g=%s: %s" % (cls, f, g, msg)))
@@ -206,6 +210,8 @@ def check_binary(params):
         if ref.ty_key(t.dom) != ref.ty_key(f.dom) + ref.ty_key(g.dom) or \
                 ref.ty_key(t.cod) != ref.ty_key(f.cod) + ref.ty_key(g.cod):
             bad("tensor-types", "f @ g : %s -> %s" % (t.dom, t.cod))
+    if [ref.snapshot(v) for v in (f, g,)] != snaps:
+        out.append((_sig("operand-mutated", params), "[%s] an operand (f, g) is no longer the value it was before the operations" % (cls,)))
     return out
 
 
@@ -213,6 +219,7 @@ def check_ternary(params):
     cls = params["cls"]
     f, g, h = make(params["r1"]), make(params["r2"]), make(params["r3"])
     out = []
+    snaps = [ref.snapshot(v) for v in (f, g, h,)]
 
     def bad(kind, msg):
         out.append((_sig(kind, params), "[%s] f=%s, g=%s, h=%s: %s" % (cls, f, g, h, msg)))
@@ -230,6 +237,8 @@ def check_ternary(params):
         if tykey(f.dom.tensor(g.dom, h.dom)) != tykey(f.dom @ g.dom @ h.dom) \
                 or tykey((f @ g @ h).dom) != tykey(f.dom.tensor(g.dom, h.dom)):
             bad("type-tensor-nary", "dom.tensor(dom, dom) disagrees with dom @ dom @ dom")
+    if [ref.snapshot(v) for v in (f, g, h,)] != snaps:
+        out.append((_sig("operand-mutated", params), "[%s] an operand (f, g, h) is no longer the value it was before the operations" % (cls,)))
     return out
 
 
@@ -237,6 +246,7 @@ def check_sum(params):
     cls = params["cls"]
     f, g, h = make(params["r1"]), make(params["r2"]), make(params["r3"])
     out = []
+    snaps = [ref.snapshot(v) for v in (f, g, h,)]
 
     def bad(kind, msg):
         out.append((_sig(kind, params), "[%s] f=%s, g=%s, h=%s: %s" % (cls, f, g, h, msg)))
@@ -289,10 +299,75 @@ def check_sum(params):
         zd = zero[::-1]
         if not is_sum(zd) or zd.terms or tykey(zd.dom) != tykey(f.cod) or tykey(zd.cod) != tykey(f.dom):
             bad("zero-dagger", "0[::-1] = %r" % (zd,))
+    if [ref.snapshot(v) for v in (f, g, h,)] != snaps:
+        out.append((_sig("operand-mutated", params), "[%s] an operand (f, g, h) is no longer the value it was before the operations" % (cls,)))
     return out
 
 
-CASES = {k: safe("C02", f) for k, f in {"unary": check_unary, "binary": check_binary,
+def histories(d, cls):
+    """Values that must equal d but were reached another way (slices, double dagger, recomposition,
+    units): operations must treat them exactly like d."""
+    n = len(d)
+    out = [("d[0:%d]" % n, lambda: d[0:n]), ("d[:]", lambda: d[:]), ("d[-%d:]" % n if n else "d[0:]", lambda: d[-n:] if n else d[0:])]
+    for k in range(1, n):
+        out.append(("d[:%d] >> d[%d:]" % (k, k), lambda k=k: d[:k] >> d[k:]))
+    out.append(("Id(dom) >> d >> Id(cod)", lambda: ident(d, d.dom) >> d >> ident(d, d.cod)))
+    if cls != "cat":
+        out.append(("Id() @ d @ Id()", lambda: ident(d, d.dom[0:0]) @ d @ ident(d, d.dom[0:0])))
+    dg, _ = dagger_of(d, cls)
+    if dg is not None:
+        out.append(("d[::-1][::-1]", lambda: d[::-1][::-1]))
+        out.append(("(d[::-1])[::-1][0:%d]" % n, lambda: d[::-1][::-1][0:n]))
+    return out
+
+
+def check_history(params):
+    """Differential oracle: a value reached through another construction history is used as an
+    operand of every binary operation next to a partner p; the result must equal the result
+    obtained with the freshly built value."""
+    cls = params["cls"]
+    d, p = make(params["r"]), make(params["p"])
+    out = []
+    snaps = [ref.snapshot(v) for v in (d, p)]
+    ops = [("v @ p", lambda v: v @ p), ("p @ v", lambda v: p @ v)] if cls != "cat" else []
+    if tykey(d.cod) == tykey(p.dom):
+        ops.append(("v >> p", lambda v: v >> p))
+    if tykey(p.cod) == tykey(d.dom):
+        ops.append(("p >> v", lambda v: p >> v))
+    if tykey(d.dom) == tykey(p.dom) and tykey(d.cod) == tykey(p.cod):
+        ops.append(("v + p", lambda v: v + p))
+    ops += [("v @ v", lambda v: v @ v)] if cls != "cat" else []
+    ops += [("v + v", lambda v: v + v), ("v[::-1]", lambda v: dagger_of(v, cls)[0])]
+    for hl, ht in histories(d, cls):
+        try:
+            v = ht()
+        except Exception as e:  # noqa
+            out.append((_sig("history-raises", [params, hl]), "[%s] d = %s: %s raised %r" % (cls, d, hl, e)))
+            continue
+        if not same(v, d):
+            out.append((_sig("history-differs", [params, hl]), "[%s] d = %s: %s = %s is not equal to d" % (cls, d, hl, v)))
+            continue
+        for ol, op in ops:
+            try:
+                want = op(d)
+            except Exception:
+                continue         # not defined for d itself: nothing to compare
+            try:
+                got = op(v)
+            except Exception as e:  # noqa
+                out.append((_sig("history-op-raises", [params, hl, ol]), "[%s] d = %s, p = %s: with v = %s (== d), %s raised %r "
+                            "but works with d itself" % (cls, d, p, hl, ol, e)))
+                break
+            if (want is None) != (got is None) or (want is not None and not same(got, want)):
+                out.append((_sig("history-op-differs", [params, hl, ol]), "[%s] d = %s, p = %s: with v = %s (== d), %s = %s "
+                            "but with d itself %s" % (cls, d, p, hl, ol, got, want)))
+                break
+    if [ref.snapshot(v) for v in (d, p)] != snaps:
+        out.append((_sig("operand-mutated", params), "[%s] an operand is no longer the value it was" % (cls,)))
+    return out
+
+
+CASES = {k: safe("C02", f) for k, f in {"unary": check_unary, "binary": check_binary, "history": check_history,
                                         "ternary": check_ternary, "sum": check_sum}.items()}
 
 
@@ -351,6 +426,10 @@ def run(ctx):
             T = P[::max(1, len(P) // tsize)][:tsize]
             for r1, r2, r3 in itertools.product(T, repeat=3):
                 items.append(("ternary", dict(cls=cls, r1=r1, r2=r2, r3=r3)))
+        partners = P[::max(1, len(P) // 6)][:6]
+        for r in P:
+            for pr in partners:
+                items.append(("history", dict(cls=cls, r=r, p=pr)))
         par = {}
         for r, v in vals:
             par.setdefault((_safe_key(v.dom), _safe_key(v.cod)), []).append(r)
@@ -369,6 +448,8 @@ def run(ctx):
         vals = [(r, make(r)) for r in ents]
         for r, _ in vals:
             items.append(("unary", dict(cls=cls, r=r)))
+            for pr in (ents[0], ents[len(ents) // 2]):
+                items.append(("history", dict(cls=cls, r=r, p=pr)))
         stride = 1 if (not ctx.quick or len(ents) <= 40) else 5
         k = 0
         for r1, v1 in vals:
